@@ -72,7 +72,10 @@ class GR:
             if (arg_pos or selector) and r.random() < 0.4:
                 t += "." + r.choice(ATTRS + ["q"])
             if r.random() < 0.6:
-                t += "(" + ", ".join(self.named_args()) + ")"
+                # a term call may also carry POSITIONAL arguments: they are resolved (in the scope the call is written
+                # in - inside another term that is that term's parameters) and then ignored
+                pos = [self.inline(d - 1, arg_pos=True) for _ in range(r.choice([0, 0, 0, 1, 2]))] if d > 0 else []
+                t += "(" + ", ".join(pos + self.named_args()) + ")"
             return t
         if k < 0.85:
             f = r.choice(FUNCS + ["MISSING"])
@@ -306,6 +309,13 @@ def handwritten():
         ("m0 = { FAIL() } { NONE() } { CUSTOM(\"q\") } { IDENT($x) } { IDENT() } { ARGS(1, \"s\", $x, x: 1) }\n", "%s=c%s" % (hx("x"), hx("cv"))),
         ("m0 = { \"\\u0041\\\\\" } { \"\\uD800\" } {\"é\"}\n", "."),
         ("m0 = { $x ->\n [a] A\n [b] B\n }\n", "."),
+        # MULTI-LINE values (one text element per line): a transform is applied per text element, by both entry points
+        ("m0 =\n    first line\n    second line\n    third\nm1 =\n    a\n    b { $x } c\n    d\nm2 = one\n    .a =\n        x\n        y\n"
+         "-t0 =\n    t1\n    t2\nm3 = { -t0 }|{ m0 }\nm4 = { $x ->\n   *[o]\n      v1\n      v2\n }\n", "%s=s%s" % (hx("x"), hx("X"))),
+        # a term call written INSIDE a term whose positional / named arguments read variables: they see the enclosing
+        # term's parameters (not the caller's arguments), and a parameter that was not given is not an error there
+        ("-t0 = in { $who }\n-t1 = { -t0($who) } { -t0(who: $who) } { -t0(IDENT($who), who: \"w\") }\n"
+         "m0 = { -t1 }\nm1 = { -t1(who: \"Anna\") }\nm2 = { -t1(x: 1) } { $who }\nm3 = { -t0($who, $zz) }\n", "%s=s%s" % (hx("who"), hx("CALLER"))),
         # cycles that come back to the ROOT pattern of the request, leaving it through every kind of first placeable
         # (select variant, call argument, nested placeable, term, attribute), as first / later element of the root
         ("m0 = x { $n ->\n [one] { m0 }\n *[other] y\n }\nm1 = pre { IDENT(m1) } post\nm2 = a { { m2 } } b\n"
